@@ -55,16 +55,23 @@ def check(ck):
               'another variable would receive the update too) and an '
               'updater named in one update is not kept for later ones',
               c08.r08_7_lookup, c08.r08_8)
+    from . import c06
+    ck.shared('R01.16', 'the update a process returned is applied as it '
+              'was returned: turning it into root-relative form copies it '
+              '(no nested dictionary of the returned object is merged '
+              'into), so a process that hands back the same object every '
+              'time does not see earlier updates accumulate in it and get '
+              'applied again',
+              c06.r06_7)
 
 
 # ------------------------------------------------------------------ R01.1
 def r01_1(ck):
-    ck.rule('R01.1', 'producer confinement: Defer(...) only in '
-            '_process_update, send_command("next_update") only in '
-            '_invoke_process, _process_update/_invoke_process called only '
-            'from the engine module')
+    ck.rule('R01.1', 'producer confinement: Defer(...) and '
+            'send_command("next_update") only in _process_update (its '
+            'helper _invoke_process is folded into it before analysis), '
+            '_process_update called only from the engine module')
     pu = ck.fn('_process_update', 'core.engine')
-    inv = ck.fn('_invoke_process', 'core.engine')
     ck.fn('Defer.get', 'core.engine')
     sites_pu = sites_cu = 0
     for f in nontest_functions(ck):
@@ -80,22 +87,18 @@ def r01_1(ck):
                 else None
             if isinstance(cmd, ast.Constant) and cmd.value == 'next_update':
                 ck.require(
-                    f.qual == inv.qual, 'R01.1', f, c,
-                    "send_command('next_update') only in _invoke_process",
-                    'next_update is started outside _invoke_process', c)
-            if name == pu.name and isinstance(c.func, ast.Name):
+                    f.qual == pu.qual, 'R01.1', f, c,
+                    "send_command('next_update') only in _process_update",
+                    'next_update is started outside _process_update: the '
+                    'update it starts is not wrapped in a Defer', c)
+            if name == pu.name and (isinstance(c.func, ast.Name) or A.is_name(
+                    A.call_receiver(c), 'self')):
                 sites_pu += 1
                 ck.call_sites += 1
                 ck.require(
                     f.module == pu.module, 'R01.1', f, c,
                     '_process_update is called only from the engine module',
                     '_process_update called from outside the engine', c)
-            if name == inv.name and isinstance(c.func, ast.Name):
-                ck.require(
-                    f.qual == pu.qual, 'R01.1', f, c,
-                    '_invoke_process is called only by _process_update',
-                    '_invoke_process called directly: the update it starts '
-                    'is not wrapped in a Defer', c)
             if name == '_calculate_update':
                 sites_cu += 1
                 ck.call_sites += 1
@@ -106,10 +109,16 @@ def r01_1(ck):
     ck.floor('R01.1', sites_pu, 2, 'call sites of _process_update')
     ck.floor('R01.1', sites_cu, 1, 'call sites of _calculate_update')
     # _process_update itself: invokes, wraps the same process, returns it
-    invs = list(A.calls_in(pu.node, inv.name))
-    ck.require(len(invs) == 1, 'R01.1', pu, pu.node.name,
-               '_process_update invokes the process exactly once',
-               '_process_update has %d _invoke_process calls' % len(invs))
+    invs = [c for c in A.calls_in(pu.node, 'send_command')
+            if isinstance(A.arg_of(c, 0, 'command'), ast.Constant) and
+            A.arg_of(c, 0, 'command').value == 'next_update']
+    cfgp = cfg_of(pu.node)
+    ck.require(len(invs) == 1 and not cfgp.guards(cfgp.node(invs[0])),
+               'R01.1', pu, pu.node.name,
+               '_process_update invokes the process exactly once, '
+               'unconditionally',
+               '_process_update sends next_update %d times (or only under a '
+               'condition)' % len(invs))
     defers = [c for c in A.calls_in(pu.node, 'Defer')]
     rets = [n for n in A.walk_no_nested(pu.node)
             if isinstance(n, ast.Return)]
@@ -122,9 +131,10 @@ def r01_1(ck):
     if invs and defers:
         d = defers[0]
         first = A.arg_of(d, 0, 'defer')
+        recv = A.call_receiver(invs[0])
         ok = derives(pu.node, first, lambda n: n is invs[0]) or (
-            isinstance(first, ast.Name) and first.id == A.params_of(
-                pu.node)[1])
+            isinstance(first, ast.Name) and isinstance(recv, ast.Name)
+            and first.id == recv.id == A.params_of(pu.node)[1])
         ck.require(ok, 'R01.1', pu, d,
                    'the Defer waits on the process that was just invoked',
                    'the Defer is built on something other than the invoked '
@@ -168,6 +178,13 @@ def r01_2(ck):
                 ck.ok('R01.2', f, stmt, 'result returned to the caller')
                 continue
             if isinstance(stmt, ast.Expr):
+                sv = stmt.value
+                if isinstance(sv, ast.Call) and A.call_name(sv) in (
+                        'append', 'extend', 'insert') and any(
+                        A.contains(a, c) for a in sv.args):
+                    ck.ok('R01.2', f, stmt, 'result queued directly in a '
+                          'list of updates')
+                    continue
                 ck.fail('R01.2', f, stmt,
                         'the started update is discarded (call used as a '
                         'statement)', stmt)
